@@ -346,7 +346,9 @@ def classify_exc(e):
         ("Unsupported space for differential basis function", "stub-refused/diff-basis-on-any-space"),
         # both generators crash on these (no call and no stub to compare)
         ("found unsupported mesh property 'MeshProperty.NCELL_2D'", "refused/cma-kernel-with-mesh-properties"),
-        ("Literal[value:'NOT_INITIALISED'", "refused/dof-kernels-not-implemented"),
+        # one invoke passes the same CMA operator to kernels that disagree about its spaces and the first
+        # one sees equal spaces: PSy-layer generation stops (no call to compare)
+        (":ncol:cma_matrix' in the Symbol Table", "refused/shared-cma-operator-first-seen-with-equal-spaces"),
     ]
     for frag, code in table:
         if frag in msg:
